@@ -288,7 +288,7 @@ namespace smt
                 const auto [v1, c1] = *it;
                 if (c1 != -rational::ONE || !is_integer(expr.known_term))
                     throw std::invalid_argument("not a valid integer difference logic constraint..");
-                return new_distance(v0, v1, expr.known_term.numerator(), -1);
+                return new_distance(v0, v1, expr.known_term.numerator() - 1);
             }
         default:
             throw std::invalid_argument("not a valid integer difference logic constraint..");
